@@ -161,11 +161,37 @@ fn gen_history(rng: &mut Rng, id_base: u32, conflicting_with: Option<&Stream>) -
                 // value definition by ANY value-defining opcode of the grammar; id operands come from the ids of the
                 // history (types and typed values), so "operands that happen to be typed" conjunctions occur
                 let op = *g.rng.pick(value_defining_opcodes());
-                let i = g.inst(op);
-                if let Some(rid) = i.rid {
-                    value_ids.push(rid);
+                // half of the time the id operands come from the ids typed two words / unsupported only (several operands
+                // "happen" to share such a type), and the result type is sometimes an id nothing defines
+                let narrow: Vec<u32> = type_ids.iter().chain(value_ids.iter()).cloned().filter(|id| g.tctx.width_of(*id) != Width::One).collect();
+                let saved = if !narrow.is_empty() && g.rng.chance(1, 2) { Some(std::mem::replace(&mut g.ids, narrow)) } else { None };
+                let mut i = g.inst(op);
+                if let Some(ids) = saved {
+                    g.ids = ids;
                 }
+                if g.rng.chance(1, 4) {
+                    i.rtype = Some(g.next_id + 90 + g.rng.below(4) as u32);
+                    if let Some(r) = i.rid {
+                        // (the generator's own type context follows the instruction as it is emitted)
+                        g.tctx.types.remove(&r);
+                    }
+                }
+                let rid = i.rid;
                 insts.push(i);
+                if let Some(rid) = rid {
+                    value_ids.push(rid);
+                    if g.rng.chance(1, 3) {
+                        // consumed at once: a switch on the value just defined (one-word cases: nothing types it for the
+                        // reference unless its result type does)
+                        let mut ops = vec![MOp::W(s.k_idref, rid), MOp::W(s.k_idref, g.some_id())];
+                        match g.tctx.width_of(rid) {
+                            Width::Two => ops.push(MOp::L64(((g.rng.word() as u64) << 32) | g.rng.word() as u64)),
+                            _ => ops.push(MOp::W(s.k_lit32, g.rng.word())),
+                        }
+                        ops.push(MOp::W(s.k_idref, g.some_id()));
+                        insts.push(MInst { opcode: s.op("Switch"), rtype: None, rid: None, ops });
+                    }
+                }
             }
             3..=4 => {
                 // value definition carrying a type forward through its result type
@@ -363,8 +389,8 @@ impl Property for C10 {
 
     fn runs(tier: Tier) -> u64 {
         match tier {
-            Tier::Quick => 300_000,
-            Tier::Thorough => 30_000_000,
+            Tier::Quick => 500_000,
+            Tier::Thorough => 50_000_000,
         }
     }
 
